@@ -48,7 +48,8 @@ mzd_t *_mzd_mul_even(mzd_t *C, mzd_t const *A, mzd_t const *B, int cutoff) {
   rci_t n = B->ncols;
 
   /* handle case first, where the input matrices are too small already */
-  if (closer(m, cutoff) || closer(k, cutoff) || closer(n, cutoff)) {
+  if (closer(m, cutoff) || closer(k, cutoff) || closer(n, cutoff) || m < 2 * m4ri_radix ||
+      k < 2 * m4ri_radix || n < 2 * m4ri_radix) {
     /* we copy the matrices first since it is only constant memory overhead and improves data
        locality */
     if (mzd_is_windowed(A) | mzd_is_windowed(B) | mzd_is_windowed(C)) {
@@ -212,7 +213,7 @@ mzd_t *_mzd_sqr_even(mzd_t *C, mzd_t const *A, int cutoff) {
 
   m = A->nrows;
   /* handle case first, where the input matrices are too small already */
-  if (closer(m, cutoff)) {
+  if (closer(m, cutoff) || m < 2 * m4ri_radix) {
     /* we copy the matrices first since it is only constant memory overhead and improves data
        locality */
     if (mzd_is_windowed(A) | mzd_is_windowed(C)) {
@@ -375,7 +376,8 @@ mzd_t *_mzd_addmul_even(mzd_t *C, mzd_t const *A, mzd_t const *B, int cutoff) {
   rci_t n = B->ncols;
 
   /* handle case first, where the input matrices are too small already */
-  if (closer(m, cutoff) || closer(k, cutoff) || closer(n, cutoff)) {
+  if (closer(m, cutoff) || closer(k, cutoff) || closer(n, cutoff) || m < 2 * m4ri_radix ||
+      k < 2 * m4ri_radix || n < 2 * m4ri_radix) {
     /* we copy the matrices first since it is only constant memory overhead and improves data
        locality */
     if (mzd_is_windowed(A) | mzd_is_windowed(B) | mzd_is_windowed(C)) {
@@ -534,7 +536,7 @@ mzd_t *_mzd_addsqr_even(mzd_t *C, mzd_t const *A, int cutoff) {
   rci_t m = A->nrows;
 
   /* handle case first, where the input matrices are too small already */
-  if (closer(m, cutoff)) {
+  if (closer(m, cutoff) || m < 2 * m4ri_radix) {
     /* we copy the matrices first since it is only constant memory overhead and improves data
        locality */
     if (mzd_is_windowed(A) | mzd_is_windowed(C)) {
